@@ -15,7 +15,7 @@
 (* there.  A trace that runs to its end prints one DONE line with the      *)
 (* verdict of each end-of-trace clause.                                    *)
 (***************************************************************************)
-EXTENDS Gherkin
+EXTENDS Props
 Docs == JsonDeserialize("docs.json")
 NDocs == Len(Docs)
 
@@ -68,6 +68,36 @@ EndVerdicts ==
      pickles   |-> Accepted /\ d.ok = 1 /\ d.compiled = 1 => SpecPickles = d.pickles,
      ids       |-> (Accepted /\ d.ok = 1 /\ d.compiled = 1 => CompileFrom(SpecDoc, d.uri, NidAfter(vPs)).nid = d.nid_after)
                    /\ (~Accepted \/ d.compiled = 0 => NidAfter(vPs) = d.nid_after) ]
+(***************************************************************************)
+(* The property predicates of Props.tla, evaluated on what the             *)
+(* IMPLEMENTATION produced for this input (not on the specification's      *)
+(* values): every recorded execution must itself have the properties.      *)
+(***************************************************************************)
+ImplProps ==
+   LET d == Docs[vTid]  ok == d.ok = 1  pk == ok /\ d.compiled = 1  dk == DialectInForce(d.lines, d.dialect)
+       ix == Index(d.ast)  eps == EPs(d.ast, d.uri) IN
+   [ c01_outcome  |-> P_C01_Outcome(d.errs, CapOf(d.mode)) /\ (ok <=> d.errs = <<>>),
+     c03_once     |-> ok => P_C03_Once(d.toks, d.ast, ix),
+     c03_order    |-> ok => P_C03_Order(d.ast, ix),
+     c03_text     |-> ok => P_C03_Text(d.lines, d.ast, ix),
+     c03_desc     |-> ok => P_C03_Desc(d.lines, d.toks, d.ast, ix),
+     c03_within   |-> ok => P_C03_Within(d.lines, d.ast, ix),
+     c04_readback |-> ok => P_C04_ReadBack(d.lines, d.ast, ix),
+     c04_errloc   |-> P_C04_ErrLoc(d.lines, d.errs),
+     c05_doc      |-> ok => P_C05_Doc(d.lines, d.ast, dk, ix),
+     c06          |-> pk => P_C06(d.pickles, eps),
+     c07          |-> pk => P_C07(d.pickles, eps),
+     c08          |-> pk => P_C08(d.pickles, eps),
+     c09          |-> pk => P_C09(d.pickles, eps),
+     c10          |-> pk => P_C10(d.pickles, eps),
+     c11_canon    |-> pk => P_C11_Canonical(d.ast, d.pickles, d.nid0),
+     c11_refs     |-> pk => P_C11_Refs(d.ast, d.pickles, ix),
+     c12_cells    |-> ok => P_C12_Cells(d.lines, d.ast, ix),
+     c12_rect     |-> ok => P_C12_Rect(d.ast, ix),
+     c13          |-> ok => P_C13_DocStrings(d.lines, d.toks, d.ast, ix),
+     c14_once     |-> P_C14_Once(d.errs),
+     c18_accepted |-> ok => P_C18_Accepted(d.lines, d.toks),
+     c18_partition|-> P_C18_Partition(d.lines, d.toks, d.errs, CapOf(d.mode)) ]
 EndDetail(v) ==
    LET d == Docs[vTid] IN
    [ outcome |-> IF v.outcome THEN <<>> ELSE <<[spec_accepts |-> Accepted, impl_ok |-> d.ok, exc |-> d.exc]>>,
@@ -76,7 +106,7 @@ EndDetail(v) ==
      pickles |-> IF v.pickles THEN <<>> ELSE <<[spec |-> SpecPickles]>>,
      ids     |-> IF v.ids THEN <<>> ELSE <<[spec |-> NidAfter(vPs), impl |-> d.nid_after]>> ]
 \* evaluated as a state constraint so that every finished trace reports exactly once
-Report == Finished => LET v == EndVerdicts IN PrintT(<<"DONE", ToJson([tid |-> vTid, name |-> Docs[vTid].name, v |-> v, detail |-> EndDetail(v)])>>)
+Report == Finished => LET v == EndVerdicts IN PrintT(<<"DONE", ToJson([tid |-> vTid, name |-> Docs[vTid].name, v |-> v, p |-> ImplProps, detail |-> EndDetail(v)])>>)
 
 Conf_Steps == vBad = <<>>
 Conf_End == Finished => \A f \in DOMAIN EndVerdicts : EndVerdicts[f]
